@@ -52,7 +52,7 @@ class C04(hc.PProp):
     thorough_wall = 900
     assumptions = ['fields that a proxy regenerates itself (Host, Content-Length, Via, Max-Forwards, Cache-Control, X-Forwarded-For) are not nominated by the generator',
                    'a relayed field is recognised by its marker value; fields squid emits itself carry no marker']
-    expected_probes = ['req_fields_judged', 'resp_fields_judged']
+    expected_probes = ['req_fields_judged', 'resp_fields_judged', 'reval_responses_judged']
 
     def hdrset(self, rng, tid, side):
         """-> (list of (name, value)), set of lower-case forbidden names (nominated or standard hop-by-hop)"""
@@ -107,7 +107,16 @@ class C04(hc.PProp):
             txns.append({'id': tid, 'method': rng.choice(['GET', 'GET', 'POST']), 'req_hdrs': q, 'req_forbidden': sorted(qf), 'req_values': qv,
                          'resp_hdrs': r, 'resp_forbidden': sorted(rf), 'resp_values': rv, 'new_conn': rng.random() < 0.4})
         plan['txns'] = txns
-        plan['_lists'] = ['txns']
+        # cached objects whose 304 revalidation carries its own hop-by-hop fields: the stored header is updated from the 304 and later hits are built from it
+        revals = []
+        for k in range(rng.choice([0, 1, 1, 2])):
+            tid = index * 100 + 50 + k
+            r1, f1, v1 = self.hdrset(rng, tid, 'r')
+            r2, f2, v2 = self.hdrset(rng, tid + 10, 'r')
+            revals.append({'id': tid, 'h200': r1, 'f200': sorted(f1), 'v200': v1, 'h304': r2, 'f304': sorted(f2), 'v304': v2, 'gets': rng.randint(2, 4)})
+        plan['revals'] = revals
+        plan['conf']['cache'] = 'mem'
+        plan['_lists'] = ['txns', 'revals']
         return plan
 
     def build(self, plan):
@@ -133,11 +142,40 @@ class C04(hc.PProp):
             cl.add('expect response timeout 30000000')
             if any(a.lower() == 'connection' and 'close' in b.lower() for a, b in t['req_hdrs']):
                 cl.add('close'); need = True
+        for rv in plan.get('revals', []):
+            tid = rv['id']
+            base = [(b'ETag', b'"hv%d"' % tid), (b'Cache-Control', b'max-age=1'), (b'Last-Modified', b'Tue, 14 Nov 2023 00:00:00 GMT')]
+            h200 = base + [(b'Content-Length', b'4'), (b'X-Sim-Ver', b'hv%d' % tid)] + [(a.encode(), b.encode()) for a, b in rv['h200']]
+            h304 = base + [(a.encode(), b.encode()) for a, b in rv['h304']]
+            r = srv.sub('rule hvc%d when hv%d=1 has %s has %s' % (tid, tid, tok(b' /hv%d ' % tid), tok(b'If-None-Match:')))
+            r.add('send %s' % tok(hc.response_head(304, h304)))
+            r = srv.sub('rule hvf%d has %s' % (tid, tok(b' /hv%d ' % tid)))
+            r.add('set hv%d 1' % tid); r.add('send %s' % tok(hc.response_head(200, h200) + b'body'))
+            c2 = scn.client('rv%d' % tid, start=5000)
+            c2.add('connect %s %d' % (hc.SQUID_IP, hc.SQUID_PORT))
+            for g in range(rv['gets']):
+                c2.add('send %s' % tok(hc.request_head(b'GET', b'http://10.0.0.1/hv%d' % tid, [(b'Host', b'10.0.0.1'), (b'X-Sim-Req', b'%d' % (tid * 10 + g))])))
+                c2.add('expect response timeout 30000000')
+                c2.add('wait %d' % (2500000 if g % 2 == 0 else 200000))
         return scn, None
 
     def judge(self, plan, expect, hist, o):
         V = o.violations
-        stats = {'req_fields_judged': 0, 'resp_fields_judged': 0}
+        stats = {'req_fields_judged': 0, 'resp_fields_judged': 0, 'reval_responses_judged': 0}
+        for rv in plan.get('revals', []):
+            for cv in hc.client_views(hist, 'rv%d' % rv['id']):
+                for k, m in enumerate(cv.finals):
+                    if hc.is_squid_error(m):
+                        continue
+                    stats['reval_responses_judged'] += 1
+                    for name, value in m.headers:
+                        n = name.decode('latin-1').lower(); v = value.decode('latin-1')
+                        for which, other in (('200', '304'), ('304', '200')):
+                            if n not in rv['f' + other] and rv['v' + other].get(n) == v:
+                                continue      # the same field value is a legitimate end-to-end field of the other response
+                            if n in rv['f' + which] and rv['v' + which].get(n) == v:
+                                kind = 'hopbyhop' if n in STD_HOP else 'nominated'
+                                V.append(Violation('C04:response:%s-from-%s:%s' % (kind, which, n), 'GET %d of the revalidated object /hv%d: field %r (value %r), hop-by-hop in the origin\'s %s response, reached the client (cache status %r)' % (k + 1, rv['id'], name, v, which, m.get(b'cache-status'))))
         by_id = {str(t['id']): t for t in plan['txns']}
         up = hc.upstream_requests_by_id(hist)
         nontrivial = 0
@@ -174,5 +212,5 @@ class C04(hc.PProp):
                 if t['resp_forbidden']:
                     nontrivial += 1
         o.stats = stats
-        o.nontrivial = nontrivial > 0
+        o.nontrivial = nontrivial > 0 or stats['reval_responses_judged'] > 0
         o.sample = {'txns': [{'req': t['req_hdrs'], 'resp': t['resp_hdrs']} for t in plan['txns'][:2]]}
